@@ -3,6 +3,7 @@
 package main
 
 import (
+	"verif/internal/scen/c01"
 	"verif/internal/scen/c10"
 	"verif/internal/scen/c11"
 	"verif/internal/scen/c12"
@@ -12,6 +13,8 @@ import (
 )
 
 func main() {
+	worker.Register(c01.Sequential{})
+	worker.Register(c01.Concurrent{})
 	worker.Register(c10.Scans{})
 	worker.Register(c10.AddFields{})
 	worker.Register(c10.March{})
